@@ -406,4 +406,86 @@ def r7_source_literals(a, tier):
     return rep
 
 
-RULES = [r_chain, r1_registry, r2_fields, r3_string_images, r4_cycles, r5_state_keys, r6_exports, r7_source_literals]
+def r8_structure(a, tier):
+    from ..minieval import Unsupported
+    from ..modelinterp import Hook, ModelInterp, Stub
+    rep = RuleReport(
+        'C14.R8',
+        'the generic encoder and decoder, interpreted on stand-in structures: asjson turns nested mappings / lists / tuples into data the '
+        'json module can dump (string keys, lists, scalars), writes an object as its public attributes plus "__class__" = the class name '
+        '(nested objects likewise, private attributes left out) and any other object as a string; fromjson rebuilds a class-tagged mapping '
+        'through the registered class\'s __from_json__ AFTER decoding its members (lists and nested tagged mappings included), turns a '
+        'mapping with an unknown tag into an attribute object and leaves plain mappings as dicts with decoded values',
+        floor=7,
+    )
+    ajo = a.p.func('tatsu.util.asjson.asjson')
+    fjo = a.p.func('tatsu.util.fromjson.fromjson')
+
+    class _No:
+        pass
+    G = {'id': Hook(lambda o: id(o)), 'hex': Hook(hex), 'as_namedtuple': Hook(lambda n: None), 'isiter': Hook(lambda n: False),
+         'enum': Hook(None, Enum=_No), 'weakref': Hook(None, ReferenceType=_No, ProxyTypes=(), ProxyType=_No),
+         'inspect': Hook(None, ismethod=Hook(lambda v: False)), 'is_readonly_property': Hook(lambda o, n: False),
+         'vars': Hook(lambda o: dict(o._attrs) if isinstance(o, Stub) else {}), 'hasattr': Hook(lambda o, n: isinstance(o, Stub) and n in o._attrs),
+         'getattr': Hook(lambda o, n, *d: ((lambda **k: None) if isinstance(o, Stub) and n == '__json__' else o._attrs.get(n, *d) if isinstance(o, Stub) else (d[0] if d else None))),
+         'callable': Hook(lambda o: callable(o)),
+         'repr': Hook(lambda o: '<repr>')}
+
+    def jsonable(v) -> bool:
+        if v is None or isinstance(v, (str, int, float, bool)):
+            return True
+        if isinstance(v, list):
+            return all(jsonable(x) for x in v)
+        if type(v) is dict:
+            return all(isinstance(k, str) and jsonable(x) for k, x in v.items())
+        return False
+
+    def enc(x):
+        try:
+            return ModelInterp(a, dict(G)).call_fn(ajo, [x])
+        except Unsupported as e:
+            raise AnalysisError(f'C14.R8: cannot interpret asjson: {e}') from e
+
+    JB = 'tatsu.util.fromjson.JSONBase'
+    inner = Stub(JB, token='u', _cache=9)
+    obj = Stub(JB, token='t', _private=1, sub=inner, items=[inner, (1, 2)])
+    cases = [
+        ('nested mappings, lists, tuples, a non-string key', {'k': [1, 'x', (2.5, True)], 3: None}, {'k': [1, 'x', [2.5, True]], '3': None}),
+        ('an object with public, private and nested object attributes', obj,
+         {'__class__': 'JSONBase', 'token': 't', 'sub': {'__class__': 'JSONBase', 'token': 'u'}, 'items': [{'__class__': 'JSONBase', 'token': 'u'}, [1, 2]]}),
+        ('an object without a JSON protocol', object(), '<repr>'),
+    ]
+    for what, value, want in cases:
+        got = enc(value)
+        ok = got == want and jsonable(got)
+        rep.add({'asjson_of': what, 'gives': repr(got)[:200], 'json_dumpable': jsonable(got), 'ok': ok})
+        if not ok:
+            rep.fail(ajo.qualname, f'encode:{what}', f'asjson of {what} gives {got!r}; required {want!r} (data the json module can dump)', ajo.loc)
+    made: list = []
+    reg = {'Zed': Hook(None, __from_json__=Hook(lambda data: made.append(data) or ('ZED', tuple(sorted(data.items(), key=str)))))}
+
+    def dec(x):
+        try:
+            return ModelInterp(a, {**G, '__from_json__class__': reg, 'issubclass': Hook(lambda c, b_: True),
+                                   'SimpleNamespace': Hook(lambda **kw: ('NS', tuple(sorted(kw.items()))))}).call_fn(fjo, [x])
+        except Unsupported as e:
+            raise AnalysisError(f'C14.R8: cannot interpret fromjson: {e}') from e
+    z1 = ('ZED', (('a', 1),))
+    dcases = [
+        ('a tagged mapping whose members hold a list of tagged mappings and a plain mapping',
+         {'__class__': 'Zed', 'a': [{'__class__': 'Zed', 'a': 1}], 'b': {'c': {'__class__': 'Zed', 'a': 1}}},
+         ('ZED', (('a', [z1]), ('b', {'c': z1})))),
+        ('a mapping with an unknown tag', {'__class__': 'Unknown', 'x': {'__class__': 'Zed', 'a': 1}}, ('NS', (('x', z1),))),
+        ('a plain mapping and scalars', {'p': [1, 'x', None, 2.5], 'q': {'__class__': 'Zed', 'a': 1}}, {'p': [1, 'x', None, 2.5], 'q': z1}),
+        ('a tuple', (1, {'__class__': 'Zed', 'a': 1}), [1, z1]),
+    ]
+    for what, value, want in dcases:
+        got = dec(value)
+        ok = got == want
+        rep.add({'fromjson_of': what, 'gives': repr(got)[:200], 'ok': ok})
+        if not ok:
+            rep.fail(fjo.qualname, f'decode:{what}', f'fromjson of {what} gives {got!r}; required {want!r}', fjo.loc)
+    return rep
+
+
+RULES = [r_chain, r1_registry, r2_fields, r3_string_images, r4_cycles, r5_state_keys, r6_exports, r7_source_literals, r8_structure]
